@@ -195,7 +195,28 @@ def parse_bool(val):
     return None
 
 
-def run_session(ctx, n):
+def systematic_lines(part, nparts):
+    """All 2^5 combinations of the boolean rendering settings x both formats, each followed by statements."""
+    import itertools
+    names = ['boxed', 'expand', 'narrow', 'spaced', 'unicode']
+    lines = []
+    combos = list(itertools.product([False, True], repeat=5))
+    for ci, combo in enumerate(combos):
+        if ci % nparts != part:
+            continue
+        for fmt in ('text', 'csv'):
+            lines.append(('set', f'.set format {fmt}', 'format', fmt, '.'))
+            for name, val in zip(names, combo):
+                word = 'true' if val else 'off'
+                lines.append(('set', f'.set {name} {word}', name, word, '.'))
+            lines.append(('set', '.set nullvalue "-"' if ci % 2 else '.set nullvalue ""', 'nullvalue', '-' if ci % 2 else '', '.'))
+            lines.append(('statement', STATEMENTS[0], None, None, ''))
+            lines.append(('statement', STATEMENTS[3], None, None, ''))
+            lines.append(('statement', STATEMENTS[2], None, None, ''))
+    return lines
+
+
+def run_session(ctx, n, systematic=None):
     from beancount.core import data
     rng = ctx.rng('session', n)
     led = ledgers.gen_ledger(rng, ntxn=rng.randint(5, 14))
@@ -208,7 +229,9 @@ def run_session(ctx, n):
         numberify = rng.random() < 0.2
         sess = Session(path, fmt, numberify)
         queries = {e.name: e for e in led.entries if isinstance(e, data.Query)}
-        lines = gen_lines(rng, sorted(queries))
+        lines = gen_lines(rng, sorted(queries)) if systematic is None else systematic_lines(*systematic)
+        if systematic is not None:
+            ctx.count('obs.systematic_setting_combinations', len(lines) // 18)
         case = {'replay': ['session', n], 'ledger': led.text, 'lines': [l[1] for l in lines], 'format': fmt, 'numberify': numberify}
         changed = 0
         printed = 0
@@ -442,6 +465,8 @@ def run_cli(ctx, n):
 
 def run(ctx):
     engine.bq()
+    # every combination of the rendering settings, split over the shards
+    run_session(ctx, 10 ** 6 + ctx.shard, systematic=(ctx.shard, ctx.nshards))
     for n in range(ctx.pick(12, 700)):
         if ctx.out_of_time():
             break
@@ -461,6 +486,8 @@ def replay(ctx, case):
 def finalize(merged):
     c = merged['counters']
     reasons = []
+    if c.get('obs.systematic_setting_combinations', 0) < 32:
+        reasons.append(f"only {c.get('obs.systematic_setting_combinations', 0)} of the 32 setting combinations executed")
     for k in ('obs.sessions', 'obs.kind.set', 'obs.kind.statement', 'obs.kind.run', 'obs.kind.unknown', 'obs.kind.set-bad-name', 'obs.cli_invocations',
               'obs.cli_output_redirected', 'obs.cli_error_ledgers', 'obs.empty_results', 'obs.run_with_default_close'):
         if c.get(k, 0) == 0:
